@@ -152,10 +152,10 @@ pub enum Outcome {
 }
 
 /// Run all cases on a pool of worker processes.
-pub fn run_pool(cases: &[(String, Value)], n_workers: usize) -> Vec<Outcome> {
+pub fn run_pool(cases: &[(String, Input)], n_workers: usize) -> Vec<Outcome> {
     let queue: Arc<Mutex<VecDeque<usize>>> = Arc::new(Mutex::new((0..cases.len()).collect()));
     let results: Arc<Mutex<Vec<Option<Outcome>>>> = Arc::new(Mutex::new(vec![None; cases.len()]));
-    let cases_arc: Arc<Vec<(String, String)>> = Arc::new(cases.iter().map(|(l, p)| (l.clone(), json!({"layout": l, "proof": p}).to_string())).collect());
+    let cases_arc: Arc<Vec<(String, Input)>> = Arc::new(cases.to_vec());
     let mut handles = Vec::new();
     for _ in 0..n_workers {
         let (queue, results, cases) = (queue.clone(), results.clone(), cases_arc.clone());
@@ -167,6 +167,7 @@ pub fn run_pool(cases: &[(String, Value)], n_workers: usize) -> Vec<Outcome> {
                     None => break,
                 };
                 let mut attempt = 0;
+                let line_out = json!({"layout": cases[i].0, "proof": cases[i].1.materialize()}).to_string();
                 let outcome = loop {
                     attempt += 1;
                     if w.is_none() {
@@ -176,7 +177,7 @@ pub fn run_pool(cases: &[(String, Value)], n_workers: usize) -> Vec<Outcome> {
                         Some(wk) => wk,
                         None => break Outcome::Died { status: "cannot spawn worker".into() },
                     };
-                    if writeln!(wk.tx_in, "{}", cases[i].1).and_then(|_| wk.tx_in.flush()).is_err() {
+                    if writeln!(wk.tx_in, "{}", line_out).and_then(|_| wk.tx_in.flush()).is_err() {
                         let st = wk.child.wait().map(|s| format!("{:?}", s)).unwrap_or_default();
                         w = None;
                         break Outcome::Died { status: st };
@@ -240,11 +241,31 @@ fn numeric_paths(v: &Value) -> Vec<jw::Path> {
         .collect()
 }
 
+/// What a worker is given: a whole document, or a base document plus ONE edit that is applied only when the
+/// case is sent (thousands of cases over multi-megabyte documents are never all in memory).
+#[derive(Clone)]
+pub enum Input {
+    Full(Value),
+    Edit { base: Arc<Value>, path: jw::Path, value: Value },
+}
+impl Input {
+    pub fn materialize(&self) -> Value {
+        match self {
+            Input::Full(v) => v.clone(),
+            Input::Edit { base, path, value } => {
+                let mut v = (**base).clone();
+                jw::set(&mut v, path, value.clone());
+                v
+            }
+        }
+    }
+}
+
 struct Case {
     base: usize,
     desc: String,
     class: String,
-    value: Value,
+    value: Input,
 }
 
 fn set_hex(v: &mut Value, path: &str, f: &Felt) {
@@ -369,16 +390,16 @@ pub fn redeclarations(b: &Base) -> Vec<(String, Value)> {
 
 fn cases_for(bi: usize, b: &Base) -> Vec<Case> {
     let mut out = Vec::new();
-    out.push(Case { base: bi, desc: "honest".into(), class: "honest".into(), value: b.value.clone() });
+    let shared = Arc::new(b.value.clone());
+    out.push(Case { base: bi, desc: "honest".into(), class: "honest".into(), value: Input::Full(b.value.clone()) });
     for p in numeric_paths(&b.value) {
         let ps = jw::path_str(&p);
         match jw::get(&b.value, &p).unwrap() {
             Value::String(_) => {
                 for m in extreme_felts() {
-                    let mut v = b.value.clone();
-                    jw::set(&mut v, &p, Value::String(fhex(&m)));
-                    if v != b.value {
-                        out.push(Case { base: bi, desc: format!("{} = {}", ps, fhex(&m)), class: jw::path_class(&p), value: v });
+                    let nv = Value::String(fhex(&m));
+                    if jw::get(&b.value, &p) != Some(&nv) {
+                        out.push(Case { base: bi, desc: format!("{} = {}", ps, fhex(&m)), class: jw::path_class(&p), value: Input::Edit { base: shared.clone(), path: p.clone(), value: nv } });
                     }
                 }
             }
@@ -386,10 +407,9 @@ fn cases_for(bi: usize, b: &Base) -> Vec<Case> {
                 let is_u8 = ps.ends_with("n_bits");
                 let menu: Vec<u64> = if is_u8 { vec![0, 1, 255] } else { vec![0, 1, 1 << 16, 1 << 32, 1 << 40, u64::MAX] };
                 for m in menu {
-                    let mut v = b.value.clone();
-                    jw::set(&mut v, &p, json!(m));
-                    if v != b.value {
-                        out.push(Case { base: bi, desc: format!("{} = {}", ps, m), class: jw::path_class(&p), value: v });
+                    let nv = json!(m);
+                    if jw::get(&b.value, &p) != Some(&nv) {
+                        out.push(Case { base: bi, desc: format!("{} = {}", ps, m), class: jw::path_class(&p), value: Input::Edit { base: shared.clone(), path: p.clone(), value: nv } });
                     }
                 }
             }
@@ -397,7 +417,7 @@ fn cases_for(bi: usize, b: &Base) -> Vec<Case> {
         }
     }
     for (desc, v) in redeclarations(b) {
-        out.push(Case { base: bi, desc: desc.clone(), class: format!("redeclare:{}", desc.split(' ').take(2).collect::<Vec<_>>().join("-")), value: v });
+        out.push(Case { base: bi, desc: desc.clone(), class: format!("redeclare:{}", desc.split(' ').take(2).collect::<Vec<_>>().join("-")), value: Input::Full(v) });
     }
     out
 }
@@ -434,6 +454,7 @@ pub fn run(ctx: &Ctx) -> Report {
     let all_bases = bases(ctx, true);
     for b in all_bases {
         let bi = bs.len();
+        let shared = Arc::new(b.value.clone());
         for p in numeric_paths(&b.value) {
             let ps = jw::path_str(&p);
             if !ps.starts_with("public_input") {
@@ -445,10 +466,8 @@ pub fn run(ctx: &Ctx) -> Report {
                 _ => vec![],
             };
             for m in menu {
-                let mut v = b.value.clone();
-                jw::set(&mut v, &p, m.clone());
-                if v != b.value {
-                    cases.push(Case { base: bi, desc: format!("pubin: {} = {}", ps, m), class: format!("pubin:{}", jw::path_class(&p)), value: v });
+                if jw::get(&b.value, &p) != Some(&m) {
+                    cases.push(Case { base: bi, desc: format!("pubin: {} = {}", ps, m), class: format!("pubin:{}", jw::path_class(&p)), value: Input::Edit { base: shared.clone(), path: p.clone(), value: m.clone() } });
                 }
             }
         }
@@ -473,7 +492,8 @@ pub fn run(ctx: &Ctx) -> Report {
                 Err(_) => continue,
             };
             let bi = bs.len();
-            cases.push(Case { base: bi, desc: "parse: unmodified file".into(), class: "parse:honest".into(), value: doc.clone() });
+            cases.push(Case { base: bi, desc: "parse: unmodified file".into(), class: "parse:honest".into(), value: Input::Full(doc.clone()) });
+            let shared_doc = Arc::new(doc.clone());
             let n_cells = doc["public_input"]["public_memory"].as_array().map(|a| a.len()).unwrap_or(0);
             let mut n_dyn_seen = 0usize;
             for l in jw::leaves(&doc) {
@@ -497,10 +517,9 @@ pub fn run(ctx: &Ctx) -> Report {
                 }
                 let menu: Vec<u64> = if dynp { vec![1 << 27, u32::MAX as u64, 1 << 40, u64::MAX] } else { vec![0, 1, 1 << 16, 1 << 22, 1 << 27, u32::MAX as u64, 1 << 32, 1 << 40, 1 << 63, u64::MAX] };
                 for m in menu {
-                    let mut v = doc.clone();
-                    jw::set(&mut v, &l, json!(m));
-                    if v != doc {
-                        cases.push(Case { base: bi, desc: format!("parse: {} = {}", ps, m), class: format!("parse:{}", jw::path_class(&l)), value: v });
+                    let nv = json!(m);
+                    if jw::get(&doc, &l) != Some(&nv) {
+                        cases.push(Case { base: bi, desc: format!("parse: {} = {}", ps, m), class: format!("parse:{}", jw::path_class(&l)), value: Input::Edit { base: shared_doc.clone(), path: l.clone(), value: nv } });
                     }
                 }
             }
@@ -512,7 +531,8 @@ pub fn run(ctx: &Ctx) -> Report {
             if let Ok(parsed) = swiftness_proof_parser::parse(pf.text.clone()) {
                 if let Ok(pv) = serde_json::to_value(&parsed) {
                     let bi = bs.len();
-                    cases.push(Case { base: bi, desc: "transform: unmodified structure".into(), class: "transform:honest".into(), value: pv.clone() });
+                    cases.push(Case { base: bi, desc: "transform: unmodified structure".into(), class: "transform:honest".into(), value: Input::Full(pv.clone()) });
+                    let shared_pv = Arc::new(pv.clone());
                     for l in jw::leaves(&pv) {
                         // numbers that are object members (the digits of big integers sit in arrays)
                         if !matches!(l.last(), Some(jw::Seg::Key(_))) || !jw::get(&pv, &l).map(|x| x.is_number()).unwrap_or(false) {
@@ -523,10 +543,9 @@ pub fn run(ctx: &Ctx) -> Report {
                             continue;
                         }
                         for m in [0u64, 1, 1 << 16, 1 << 26, u32::MAX as u64, 1 << 32, 1 << 40, 1 << 63, u64::MAX] {
-                            let mut v = pv.clone();
-                            jw::set(&mut v, &l, json!(m));
-                            if v != pv {
-                                cases.push(Case { base: bi, desc: format!("transform: {} = {}", ps, m), class: format!("transform:{}", jw::path_class(&l)), value: v });
+                            let nv = json!(m);
+                            if jw::get(&pv, &l) != Some(&nv) {
+                                cases.push(Case { base: bi, desc: format!("transform: {} = {}", ps, m), class: format!("transform:{}", jw::path_class(&l)), value: Input::Edit { base: shared_pv.clone(), path: l.clone(), value: nv } });
                             }
                         }
                     }
@@ -535,14 +554,15 @@ pub fn run(ctx: &Ctx) -> Report {
             }
         }
     }
-    let inputs: Vec<(String, Value)> = cases.iter().map(|c| (bs[c.base].layout.clone(), c.value.clone())).collect();
+    let inputs: Vec<(String, Input)> = cases.iter().map(|c| (bs[c.base].layout.clone(), c.value.clone())).collect();
     let outcomes = run_pool(&inputs, 16);
     let mut max_cpu = 0u64;
     let mut max_rss = 0u64;
     let mut honest_cpu = 0u64;
     for (c, o) in cases.iter().zip(outcomes.iter()) {
         let b = &bs[c.base];
-        let replay = json!({"kind": "resource", "proof": b.name, "desc": c.desc, "layout": b.layout, "mutant": c.value});
+        // the materialised document is only built for a violation
+        let mk_replay = || json!({"kind": "resource", "proof": b.name, "desc": c.desc, "layout": b.layout, "mutant": c.value.materialize()});
         if c.class != "honest" {
             rep.nontrivial_case(&format!("{}|{}", b.name, c.desc));
         }
@@ -568,16 +588,16 @@ pub fn run(ctx: &Ctx) -> Report {
                 rep.sample(&format!("{}:{}", vshort, c.class.len() % 5), json!({"proof": b.name, "case": c.desc, "verdict": verdict, "cpu_ms": cpu_ms, "maxrss_kb": maxrss_kb}));
                 if over {
                     rep.violation(&format!("resource:{}:{}", c.class, if *cpu_ms > CPU_CAP_MS { "cpu" } else { "memory" }),
-                        &format!("{} [{}]: verification used {} ms CPU / {} kB RSS (caps {} ms / {} kB)", b.name, c.desc, cpu_ms, maxrss_kb, CPU_CAP_MS, RSS_CAP_KB), replay);
+                        &format!("{} [{}]: verification used {} ms CPU / {} kB RSS (caps {} ms / {} kB)", b.name, c.desc, cpu_ms, maxrss_kb, CPU_CAP_MS, RSS_CAP_KB), mk_replay());
                 }
             }
             Outcome::Runaway { cpu_ms } => {
                 rep.eval("RUNAWAY:killed");
-                rep.violation(&format!("resource:{}:runaway", c.class), &format!("{} [{}]: verification still running after {} s wall / {} ms CPU - killed", b.name, c.desc, WALL_KILL_S, cpu_ms), replay);
+                rep.violation(&format!("resource:{}:runaway", c.class), &format!("{} [{}]: verification still running after {} s wall / {} ms CPU - killed", b.name, c.desc, WALL_KILL_S, cpu_ms), mk_replay());
             }
             Outcome::Died { status } => {
                 rep.eval("DIED:worker");
-                rep.violation(&format!("resource:{}:abort", c.class), &format!("{} [{}]: the verifier process died ({}) - allocation failure / abort", b.name, c.desc, status), replay);
+                rep.violation(&format!("resource:{}:abort", c.class), &format!("{} [{}]: the verifier process died ({}) - allocation failure / abort", b.name, c.desc, status), mk_replay());
             }
             Outcome::Starved => {
                 rep.eval("starved");
@@ -594,7 +614,7 @@ pub fn run(ctx: &Ctx) -> Report {
 
 pub fn replay(_ctx: &Ctx, case: &Value) -> super::ReplayResult {
     let layout = case["layout"].as_str().ok_or("layout")?.to_string();
-    let o = run_pool(&[(layout, case["mutant"].clone())], 1);
+    let o = run_pool(&[(layout, Input::Full(case["mutant"].clone()))], 1);
     let bad = !matches!(&o[0], Outcome::Done { cpu_ms, maxrss_kb, .. } if *cpu_ms <= CPU_CAP_MS && *maxrss_kb <= RSS_CAP_KB);
     let class = match &o[0] {
         Outcome::Done { verdict, .. } => format!("done verdict={} within_caps={}", verdict, !bad),
